@@ -17,6 +17,8 @@
 #include "QXmppPubSubSubscription.h"
 #include "QXmppPubSubNodeConfig.h"
 #include "QXmppMixInfoItem.h"
+#include "QXmppMixInvitation.h"
+#include "QXmppPubSubSubscribeOptions.h"
 #include "QXmppMixParticipantItem.h"
 #include "QXmppMixConfigItem.h"
 #include "QXmppHttpUploadIq.h"
@@ -188,7 +190,7 @@ public:
                               "stub: transport, ScriptedServer holding requests until the scheduler answers them (any sender, any order, twice, never), deferred StubE2ee jobs, simulated clock");
     }
 
-    static constexpr int kThunks = 34;
+    static constexpr int kThunks = 58;
 
     Plan generate(quint64 seed, const QString &tier) override
     {
@@ -456,6 +458,9 @@ public:
                     "pubsub.retract", "pubsub.purge", "pubsub.subscriptions", "pubsub.affiliations", "pubsub.nodeconfig", "pubsub.subscribe", "mix.create", "mix.join",
                     "mix.leave", "mix.participants", "mix.info", "mam.retrieve", "mam.retrieve_with", "tune.request", "tune.publish", "location.request",
                     "moved.verify", "upload.slot",
+                    "mix.channeljids", "mix.nodes", "mix.config", "mix.updateinfo", "mix.nickname", "mix.subscriptions", "mix.invitation", "mix.allowed",
+                    "mix.allow", "mix.disallow", "mix.disallowall", "mix.banned", "mix.ban", "mix.unban", "mix.unbanall", "mix.delete",
+                    "pubsub.instantnode", "pubsub.nodeaffiliations", "pubsub.subscribeoptions", "pubsub.cancelconfig", "pubsub.unsubscribe", "pubsub.nodesubscriptions", "pubsub.ownpepnodes", "moved.publish",
                 };
                 newTracked(t, QString::fromLatin1(names[idx]), false);
                 tr.log(QStringLiteral("app: #%1 %2").arg(t->no).arg(t->what));
@@ -505,6 +510,35 @@ public:
                 case 31: track(loc->request(QString::fromLatin1(kContactBare))); break;
                 case 32: track(moved->verifyStatement(QStringLiteral("old@elsewhere.example"), w.ownBare())); break;
                 case 33: track(upload->requestSlot(QStringLiteral("file.bin"), 1234, QMimeType(), QStringLiteral("upload.example.org"))); break;
+                case 34: track(mix->requestChannelJids(QStringLiteral("mix.example.org"))); break;
+                case 35: track(mix->requestChannelNodes(channel)); break;
+                case 36: track(mix->requestChannelConfiguration(channel)); break;
+                case 37: {
+                    QXmppMixInfoItem info;
+                    info.setName(QStringLiteral("The Coven"));
+                    track(mix->updateChannelInformation(channel, info));
+                    break;
+                }
+                case 38: track(mix->updateNickname(channel, QStringLiteral("third witch"))); break;
+                case 39: track(mix->updateSubscriptions(channel)); break;
+                case 40: track(mix->requestInvitation(channel, QString::fromLatin1(kContactBare))); break;
+                case 41: track(mix->requestAllowedJids(channel)); break;
+                case 42: track(mix->allowJid(channel, QString::fromLatin1(kContactBare))); break;
+                case 43: track(mix->disallowJid(channel, QString::fromLatin1(kContactBare))); break;
+                case 44: track(mix->disallowAllJids(channel)); break;
+                case 45: track(mix->requestBannedJids(channel)); break;
+                case 46: track(mix->banJid(channel, QStringLiteral("spam@evil.example"))); break;
+                case 47: track(mix->unbanJid(channel, QStringLiteral("spam@evil.example"))); break;
+                case 48: track(mix->unbanAllJids(channel)); break;
+                case 49: track(mix->deleteChannel(channel)); break;
+                case 50: track(pubsub->createInstantNode(service)); break;
+                case 51: track(pubsub->requestNodeAffiliations(service, QStringLiteral("node1"))); break;
+                case 52: track(pubsub->requestSubscribeOptions(service, QStringLiteral("node1"))); break;
+                case 53: track(pubsub->cancelNodeConfiguration(service, QStringLiteral("node1"))); break;
+                case 54: track(pubsub->unsubscribeFromNode(service, QStringLiteral("node1"), w.ownBare())); break;
+                case 55: track(pubsub->requestSubscriptions(service, QStringLiteral("node1"))); break;
+                case 56: track(pubsub->requestOwnPepNodes()); break;
+                case 57: track(moved->publishStatement(QStringLiteral("new@elsewhere.example"))); break;
                 }
                 issuing = nullptr;
             };
